@@ -2,8 +2,9 @@
 
 A case is a history: operations on one or two EventMixin sources (subscribe in every API
 form, unsubscribe in every form, raise in instance/class form with and without error
-suppression, drop the owner of weak handlers, name-based auto binding) plus one script per
-handler owner (return value, event.halt, exception, re-entrant operations).  The history is
+suppression, drop the owner of weak handlers, name-based auto binding, clearHandlers) plus one
+script per handler owner (return value, event.halt, exception -- ordinary ones and ones whose
+str()/repr() fail --, re-entrant operations).  The history is
 interpreted against the real revent code and, in lock-step, against pvf.ref.evmodel.Monitor,
 a validity predicate written from the property statement.
 """
@@ -11,6 +12,7 @@ import contextlib
 import gc
 import io
 import itertools
+import sys
 import traceback
 import weakref
 
@@ -23,21 +25,25 @@ ID = "C05"
 LEVEL = "exploration"
 TECHNIQUE = ("model-based testing of operation histories: exhaustive short sequences over fixed op alphabets + Hypothesis-drawn "
              "histories, real revent run in lock-step with an independent delivery monitor")
-LEVEL_TEXT = ("Exploration by generated histories: every sequence of up to 4 (quick) / 5 (thorough) operations over five fixed "
-              "alphabets of 12-16 operations is run, plus Hypothesis-drawn histories with re-entrant handler scripts; each is judged "
+LEVEL_TEXT = ("Exploration by generated histories: every sequence of up to 4 (quick) / 5 (thorough) operations over seven fixed "
+              "alphabets of 12-17 operations (and one step longer over an eighth of 9 operations) is run, plus Hypothesis-drawn histories with re-entrant handler scripts; each is judged "
               "by a monitor (pvf/ref/evmodel.py) restating the property: snapshot at raise time ordered by (-priority, subscription "
               "order), exactly once, halting, removal, rejection of undeclared types, error suppression, weak handlers. The event "
               "library is pure and single threaded, so dense enumeration of short histories plus random longer ones is the fitting "
               "level; nothing is claimed beyond the explored bounds.")
 LEVEL_NOTE = ("where the statement is silent the monitor accepts both outcomes (handler subscribed during a delivery, "
               "bare True/False return values, event.halt set without a halting return value, handlers after one that raised)")
-RULE = ("a case is a history of subscribe/unsubscribe/raise/drop-owner/auto-bind operations with per-owner handler scripts; it is "
+RULE = ("a case is a history of subscribe/unsubscribe/raise/drop-owner/auto-bind/clear-all operations with per-owner handler scripts; it is "
         "non-trivial when it contains a delivery whose snapshot has >= 2 handlers and in which a handler performed a re-entrant "
-        "operation or halted the event; distinct by SHA-1 of the canonical JSON of the case")
+        "operation, halted the event or ended with an exception; distinct by SHA-1 of the canonical JSON of the case")
 ASSUMPTIONS = [
   "handlers are bound methods (the only kind CallProxy supports for weak=True); events are Event subclasses",
   "owner objects may have value equality (distinct owners comparing and hashing equal): a subscription belongs to the object, not to its value",
   "a handler's exception may derive directly from BaseException (the harness's own Cancelled class; KeyboardInterrupt/SystemExit are not used)",
+  "a handler's exception may be of a class whose __str__ / __repr__ is itself faulty (raises, returns a non-string, reads an attribute nobody set), may carry no arguments, a tuple argument, or text full of formatting characters: 'never propagates a handler's exception' holds for every exception; anything other than silence reaching the raiser of an error-suppressing raise after a handler raised is judged as propagation",
+  "clearHandlers() ends every subscription of the source at once; called from inside a handler it is a removal made during delivery: the handlers of the raise-time snapshot are still owed their invocation",
+  "removing, by a form that names the event type, a subscription that is gone because the source's table was cleared (and nothing subscribed to that type since) may raise KeyError or do nothing: the statement does not say how removing what is not subscribed ends (removeListeners lists name such entries by id instead)",
+  "exceptions the interpreter swallows inside weakref callbacks (CallProxy clean-up after clearHandlers) are counted in the evidence (unraisable-in-cleanup-*), not judged",
   "a handler subscribed while a delivery is in progress may or may not be invoked in that delivery (at most once); a handler of the raise-time snapshot that is unsubscribed during the delivery is still owed its invocation (snapshot semantics, as the statement says) unless the event is halted first or it is a weak handler whose owner dies first",
   "a snapshot entry that ended its own subscription (one-shot / remove return value) in a nested delivery before its turn in the outer one is not judged in the outer one ('never invoked again' vs 'every handler subscribed at that moment')",
   "bare True / False return values and 'event.halt = True' without a halting return value are outside the documented protocol: their effect is not judged",
@@ -48,8 +54,8 @@ ASSUMPTIONS = [
   "owner death is observed through a weakref (never predicted) except for owners that were only ever subscribed weakly and are dropped outside any delivery: those must be collectable, whatever their handlers did before (returned, halted, raised with the exception propagated to the raiser or suppressed by raiseEventNoErrors through the exception hook pox.core installs); the harness itself keeps no traceback of a handler's exception",
 ]
 EXHAUSTIVE_SCOPE = {
-  "quick": "all operation sequences (with repetition) of length <= 4 over the five fixed alphabets 'prio' (12 ops), 'remove' (16 ops), 'weak' (16 ops), 'eq' (13 ops) and 'weakexc' (13 ops: weak-only owners whose handlers raise under plain and error-suppressing raises and are then dropped), and of length <= 3 over 'bind' (14 ops: name-based wiring with overlapping prefixes / event names on a third source), fixed handler scripts",
-  "thorough": "all operation sequences (with repetition) of length <= 5 over the same five alphabets, <= 4 over 'bind'",
+  "quick": "all operation sequences (with repetition) of length <= 4 over the seven fixed alphabets 'prio' (12 ops), 'remove' (16 ops), 'weak' (16 ops), 'eq' (13 ops), 'weakexc' (13 ops: weak-only owners whose handlers raise under plain and error-suppressing raises and are then dropped), 'clear' (17 ops: clearHandlers from outside and from inside a delivery, with one-shot / self-removing / halting / weak handlers in the same delivery) and 'exc' (14 ops: handlers raising exceptions that cannot be printed or are otherwise awkward to report, under all four raise forms), of length <= 5 over 'clearweak' (9 ops: an owner listening weakly and strongly that is kept alive by its subscriptions only, clearHandlers from outside and inside a delivery), and of length <= 3 over 'bind' (14 ops: name-based wiring with overlapping prefixes / event names on a third source), fixed handler scripts",
+  "thorough": "all operation sequences (with repetition) of length <= 5 over the same seven alphabets, <= 6 over 'clearweak', <= 4 over 'bind'",
 }
 
 METHODS = ["handle", "_handle_E0", "_handle_E1", "_handle_E2", "_handle_EU", "_handle_p_E0", "_handle_p_E1", "_handle_p_EU",
@@ -68,6 +74,7 @@ BIND_PREFIXES = ["", "p", "lan", "DHCPD", "handle", "Up", "e_l"]
 RET_KINDS = ["none", "true", "false", "cont", "halt", "remove", "haltremove"]
 SUB_APIS = ["addListener", "byName", "add_listener_type", "add_listener_name", "add_listener_infer"]
 UNSUB_HOW = ["handler", "handler_type", "eid", "pair", "pair_type", "eid_type", "listeners"]
+TYPE_INDEXED_UNSUB = ("handler_type", "pair", "pair_type", "eid_type", "listeners")
 BIND_APIS = ["addListeners", "autoBind", "listenTo"]
 
 _P = None
@@ -79,6 +86,63 @@ class Boom(Exception):
 
 class Cancelled(BaseException):
   """A scripted handler's exception that does not derive from Exception (like a cancellation signal)."""
+
+
+def _no_text(self):
+  raise RuntimeError("this error has no text")
+
+
+class BoomStrRaises(Boom):
+  """str() of it raises."""
+  __str__ = _no_text
+
+
+class CancelledStrRaises(Cancelled):
+  """Not an Exception, and str() of it raises."""
+  __str__ = _no_text
+
+
+class BoomStrNotText(Boom):
+  """__str__ returns its (integer) argument: str() of it raises TypeError."""
+  def __str__(self):
+    return self.args[0]
+
+
+class BoomStrMissingAttr(Boom):
+  """A buggy __str__ that reads an attribute nobody set: str() of it raises AttributeError."""
+  def __str__(self):
+    return "detail: " + self.detail
+
+
+class BoomMute(Boom):
+  """Neither str() nor repr() of it works."""
+  __str__ = _no_text
+  __repr__ = _no_text
+
+
+# script value of "exc" -> how the handler's exception is built.  True / "base" are the historical spellings.
+EXC_KINDS = {
+  True: lambda i: Boom(i),
+  "base": lambda i: Cancelled(i),
+  "noargs": lambda i: Boom(),
+  "keyerr": lambda i: KeyError(("owner", i)),
+  "percent": lambda i: Boom("100%s of %d %(x)s {0} {}"),
+  "strraises": lambda i: BoomStrRaises(i),
+  "base-strraises": lambda i: CancelledStrRaises(i),
+  "strnottext": lambda i: BoomStrNotText(i),
+  "strmissingattr": lambda i: BoomStrMissingAttr(i),
+  "mute": lambda i: BoomMute(i),
+}
+UNPRINTABLE = ("strraises", "base-strraises", "strnottext", "strmissingattr", "mute")
+UNPRINTABLE_CLASSES = (BoomStrRaises, CancelledStrRaises, BoomStrNotText, BoomStrMissingAttr, BoomMute)
+
+
+def _sr(e):
+  """repr() for messages, of an exception that may not have one."""
+  try:
+    return repr(e)
+  except BaseException:
+    return "<%s (unprintable)>" % (type(e).__name__,)
 
 
 def setup():
@@ -172,6 +236,8 @@ class RT(object):
     self.abort_owner = {}
     self.suppressed_for = set()   # owners one of whose handlers raised and had the exception suppressed by a NoErrors raise
     self.propagated_for = set()   # ... and had it propagated by a plain raise
+    self.has_entry = set()        # (source, type) that had a subscription since the source's table was last cleared
+    self.cleared = set()          # sources that were cleared at some point of the history
     self.depth = 0
     self.harness_error = None
     self.nv = 0
@@ -260,14 +326,18 @@ class RT(object):
       if pending is None:
         if sc.get("halt"):
           event.halt = True
-        if sc.get("exc") == "base":
-          pending = Cancelled(i)
-          self.flag("handler-raised-baseexception")
-        elif sc.get("exc"):
-          pending = Boom(i)
+        kind = sc.get("exc")
+        if kind:
+          if kind not in EXC_KINDS:
+            raise HarnessError("unknown exception kind %r" % (kind,))
+          pending = EXC_KINDS[kind](i)
+          if isinstance(pending, Cancelled):
+            self.flag("handler-raised-baseexception")
+          if isinstance(pending, UNPRINTABLE_CLASSES):
+            self.flag("handler-raised-unprintable-exception")
       ret = sc.get("ret", "none")
       self.mon.returned(d, s, ret, bool(sc.get("halt")), pending is not None)
-      if len(d.entries) >= 2 and (d.reentrant_ops or d.halted):
+      if len(d.entries) >= 2 and (d.reentrant_ops or d.halted or pending is not None):
         self.nontrivial = True
       if pending is not None:
         self.abort_exc[d.id] = pending
@@ -297,6 +367,8 @@ class RT(object):
       e = self.op_drop(op, nested)
     elif k == "bind":
       e = self.op_bind(op)
+    elif k == "clear":
+      e = self.op_clear(op)
     else:
       raise HarnessError("unknown op %r" % (k,))
     self.check_presence()
@@ -384,6 +456,7 @@ class RT(object):
       return None
     s = self.mon.subscribe(si, ti, (i, METHODS[m]), i, prio, once, weak)
     s.eid = r[1]
+    self.has_entry.add((si, ti))
     if not weak:
       self.strong_ever.add(i)
     self.flag("sub-" + api)
@@ -438,6 +511,12 @@ class RT(object):
     except HarnessError:
       raise
     except Exception as e:
+      if (isinstance(e, KeyError) and how in TYPE_INDEXED_UNSUB and (s.src, s.etype) not in self.has_entry
+          and s.state == evmodel.DEAD):
+        # the source's table was cleared and nothing has subscribed to this type since: there is nothing to remove,
+        # and the statement does not say how removing what is not subscribed must end
+        self.flag("unsub-by-type-after-clear-keyerror")
+        return None
       self.out.violations.append({"key": exc_key(e, clause="unsubscribe-raised", how=how),
                                   "msg": "removeListener (%s form) raised %r\n%s" % (how, e, traceback.format_exc()[-1200:])})
       return None
@@ -476,6 +555,12 @@ class RT(object):
       elif how == "eid":
         ids.append(s.eid)
         plan.append(("eid", s))
+      elif (s.src, s.etype) not in self.has_entry:
+        # nothing of this type on the source since its table was cleared: the (type, id) form of removing what is not
+        # subscribed is not judged (see op_unsub), and would cut the list short; name it by id instead
+        ids.append(s.eid)
+        plan.append(("eid", s))
+        self.flag("unsub-bulk-pair-after-clear-as-eid")
       else:
         ids.append((self.P["types"][s.etype], s.eid))
         plan.append(("pair", s))
@@ -507,6 +592,35 @@ class RT(object):
     self.flag("unsub-bulk")
     if self.depth:
       self.flag("reentrant-unsub")
+    return None
+
+  def op_clear(self, op):
+    """source.clearHandlers(): every subscription of the source ends, whatever its type, at once."""
+    si = op["s"] % self.nsrc
+    src = self.sources[si]
+    affected = self.mon.live_subs(si)
+    pending = False
+    for d in self.mon.stack:
+      if d.src == si and any(not d.consumed[j] and e.state != evmodel.DEAD for j, e in enumerate(d.entries)):
+        pending = True
+    try:
+      src.clearHandlers()
+    except HarnessError:
+      raise
+    except Exception as e:
+      self.out.violations.append({"key": exc_key(e, clause="clear-raised"),
+                                  "msg": "clearHandlers raised %r\n%s" % (e, traceback.format_exc()[-1200:])})
+      return None
+    self.mon.unsubscribe(affected, "clear")
+    self.has_entry = set(k for k in self.has_entry if k[0] != si)
+    self.cleared.add(si)
+    self.flag("clear")
+    if affected:
+      self.flag("clear-with-subscriptions")
+    if self.depth:
+      self.flag("reentrant-clear")
+      if pending:
+        self.flag("reentrant-clear-with-snapshot-handlers-pending")
     return None
 
   def op_raise(self, op, nested):
@@ -546,9 +660,11 @@ class RT(object):
     # an owner may have died during the delivery (its last strong subscription removed by a return value,
     # its last frame gone when its handler returned): tell the monitor before it decides who was skipped
     self.poll_owners()
+    handler_exc = self.abort_exc.get(d.id)
+    if exc is not None and exc is not handler_exc:
+      d.aborted = True            # the raise itself failed: judged below, once (not again as handlers that were skipped)
     self.mon.end_raise(d)
     del self.deliveries[d.id]
-    handler_exc = self.abort_exc.get(d.id)
     self.flag("raise-nested" if nested else "raise")
     self.flag("raise-%s%s" % (form, "-noerr" if noerr else ""))
     if len(d.entries) >= 2:
@@ -569,23 +685,40 @@ class RT(object):
         self.out.fail("undeclared-accepted", "raising an instance of %s, which source %d does not declare, was accepted" % (T.__name__, si),
                       op="raise", noerr=noerr)
         return None
+    unprintable = isinstance(handler_exc, UNPRINTABLE_CLASSES)
     if exc is None:
       if handler_exc is not None:
         self.flag("handler-exception-suppressed" if noerr else "handler-exception-not-propagated")
         if noerr:
           self.suppressed_for.add(self.abort_owner.get(d.id))
+          if unprintable:
+            self.flag("unprintable-exception-suppressed")
       return None
     if handler_exc is not None and exc is handler_exc:
       if noerr:
-        self.out.fail("noerrors-propagated", "raiseEventNoErrors propagated a handler's exception to the raiser: %r" % (exc,),
+        self.out.fail("noerrors-propagated", "raiseEventNoErrors propagated a handler's exception to the raiser: %s" % (_sr(exc),),
                       exc=type(exc).__name__)
         return None
       self.flag("handler-exception-propagated")
+      if unprintable:
+        self.flag("unprintable-exception-propagated")
       self.propagated_for.add(self.abort_owner.get(d.id))
       return exc
-    self.out.violations.append({"key": exc_key(exc, clause="raise-raised", noerr=noerr),
-                                "msg": "raise (%s form%s) raised %r, which no handler raised\n%s" % (
-                                    form, ", NoErrors" if noerr else "", exc,
+    if noerr and handler_exc is not None:
+      # the error-suppressing raise failed while it was dealing with the handler's exception: the handler's failure
+      # reaches the raiser all the same, in the shape of whatever the suppression machinery tripped over
+      k = exc_key(exc, clause="noerrors-propagated")
+      k["exc"] = "raised-while-suppressing"
+      self.out.violations.append({"key": k, "msg": "a handler raised %s; raiseEventNoErrors (%s form) did not suppress it but "
+                                  "let %s reach the raiser\n%s" % (_sr(handler_exc), form, _sr(exc),
+                                                                   "".join(traceback.format_exception(exc))[-1500:])})
+      return None
+    k = exc_key(exc, clause="raise-raised", noerr=noerr)
+    if si in self.cleared:
+      k["cleared"] = True       # the source dropped all its subscriptions at some point before / during this raise
+    self.out.violations.append({"key": k,
+                                "msg": "raise (%s form%s) raised %s, which no handler raised\n%s" % (
+                                    form, ", NoErrors" if noerr else "", _sr(exc),
                                     "".join(traceback.format_exception(exc))[-1200:])})
     return None
 
@@ -695,6 +828,7 @@ class RT(object):
     for m, ti in expect:
       s = self.mon.subscribe(si, ti, (i, m), i, prio, False, weak)
       s.eid = bytype[TYPE_NAMES[ti]]
+      self.has_entry.add((si, ti))
     if not weak and expect:
       self.strong_ever.add(i)
     self.flag("bind-" + api)
@@ -709,6 +843,13 @@ def run_case(case):
   rt = RT(case, out)
   sink = io.StringIO()
   gc.disable()                    # object lifetimes must not depend on when the cyclic collector happens to run
+  unraisable = []
+
+  def hook(u):
+    # an exception inside a weakref callback / finaliser (the interpreter prints and drops it).  The statement says
+    # nothing about them; they are counted, not judged.  (Keep nothing of `u`: it holds frames, hence owners.)
+    unraisable.append(type(u.exc_value).__name__)
+  old_hook, sys.unraisablehook = sys.unraisablehook, hook
   try:
     with contextlib.redirect_stdout(sink):
       for op in case["ops"]:
@@ -720,15 +861,18 @@ def run_case(case):
     # _forgetMe still runs when the owner dies: keep the per-type keys, empty the lists)
     for s in rt.sources:
       h = getattr(s, "_eventMixin_handlers", {})
-      for k in list(h):
+      for k in list(h) + _P["types"]:   # (a cleared table has lost its keys)
         h[k] = []
     rt.owners.clear()
+    sys.unraisablehook = old_hook
     gc.enable()
   out.nontrivial = rt.nontrivial
   for f in sorted(rt.flags):
     out.label(f)
   for k, v in sorted(rt.mon.stats.items()):
     out.label(k)
+  for n in sorted(set(unraisable)):
+    out.label("unraisable-in-cleanup-" + n)
   if rt.nsrc >= 2:
     out.label("two-sources" if rt.nsrc == 2 else "three-sources")
   if out.violations:
@@ -834,6 +978,49 @@ def _alphabets():
          _raise(noerr=True), _raise(form="cls", noerr=True), _raise(), _raise(t=1, form="cls", noerr=True),
          {"op": "drop", "h": 0}, {"op": "drop", "h": 1}, {"op": "drop", "h": 2}]
   A["weakexc"] = (owners, ops, 1)
+  # a source that drops all its subscriptions at once (clearHandlers), from outside and from inside a delivery,
+  # with one-shot handlers / handlers that ask to be removed / weak handlers in the same delivery
+  clear = {"op": "clear", "s": 0}
+  owners = [
+    _o(),                                                       # 0 plain
+    _o(ops=[clear]),                                            # 1 clears the source
+    _o(ops=[clear], ret="remove"),                              # 2 clears the source and asks to be removed
+    _o(ops=[clear, _sub(0, t=1)], ret="false"),                 # 3 clears, subscribes owner 0 to another type, returns False
+    _o(ops=[clear, _sub(0, t=0)], ret="cont"),                  # 4 clears, subscribes owner 0 to the same type again
+    _o(ret="haltremove"),                                       # 5 halts and asks to be removed
+  ]
+  ops = [_sub(0), _sub(0, once=True, m=1), _sub(0, weak=True, p=-1, m=2), _sub(1, p=5), _sub(1), _sub(2), _sub(3), _sub(4),
+         _sub(5, p=-1), _sub(0, t=1),
+         clear, _raise(), _raise(form="cls", noerr=True), _raise(t=1, noerr=True),
+         _unsub(0, "pair"), _unsub(1, "handler"), {"op": "drop", "h": 0}]
+  A["clear"] = (owners, ops, 1)
+  # the same, one step longer over fewer operations: an owner that listens both weakly and strongly and is kept alive by
+  # its strong subscriptions only, so that it dies when the table goes -- possibly in the middle of a delivery whose
+  # snapshot still holds its weak handler
+  owners = [
+    _o(),                                                       # 0 plain (the owner that is let go)
+    _o(ops=[clear]),                                            # 1 clears the source
+    _o(ops=[clear, _sub(2, t=0)], ret="cont"),                  # 2 clears, subscribes itself again
+  ]
+  ops = [_sub(0, weak=True, p=-1, m=2), _sub(0, t=1), _sub(0, m=1), _sub(1), _sub(2, p=5),
+         {"op": "drop", "h": 0}, clear, _raise(), _raise(form="cls", noerr=True)]
+  A["clearweak"] = (owners, ops, 1)
+  # handlers whose exception is awkward to report (no arguments, a tuple argument, formatting characters in the text,
+  # str()/repr() that fail or return a non-string), under plain and error-suppressing raises
+  owners = [
+    _o(),
+    _o(exc="strraises"),
+    _o(exc="base-strraises"),
+    _o(exc="strnottext"),
+    _o(exc="strmissingattr"),
+    _o(exc="mute", weakonly=True),
+    _o(exc="keyerr"),
+    _o(exc="percent"),
+    _o(exc="noargs"),
+  ]
+  ops = [_sub(0, p=5), _sub(1), _sub(2), _sub(3), _sub(4), _sub(5), _sub(6), _sub(7), _sub(8, once=True),
+         _raise(), _raise(noerr=True), _raise(form="cls"), _raise(form="cls", noerr=True), {"op": "drop", "h": 5}]
+  A["exc"] = (owners, ops, 1)
   return A
 
 
@@ -848,8 +1035,10 @@ def _enum(name, maxlen):
 
 def _s_op(nested):
   prio = st.sampled_from([-1, 0, 0, 0, 0, 5, 5, 7])
+  # most operations meet on source 0 / type E0, so that deliveries with several handlers are the rule, not the exception
+  src = st.sampled_from([0, 0, 0, 0, 0, 1, 2, 2])
   sub = st.fixed_dictionaries({
-    "op": st.just("sub"), "s": st.integers(0, 2), "t": st.sampled_from([0, 0, 0, 0, 0, 1, 1, 1, 2, 3, 4, 8]), "h": st.integers(0, 5),
+    "op": st.just("sub"), "s": src, "t": st.sampled_from([0] * 10 + [1, 1, 1, 2, 3, 4, 8]), "h": st.integers(0, 5),
     "m": st.sampled_from([0, 0, 0, 0, 1, 2, 4, 5, 8, 13]), "p": prio, "once": st.sampled_from([False, False, False, True]),
     "weak": st.sampled_from([False, False, False, True]), "api": st.sampled_from(SUB_APIS[:1] * 4 + SUB_APIS),
   })
@@ -857,15 +1046,20 @@ def _s_op(nested):
                                  "how": st.sampled_from(["handler", "handler", "eid", "pair"] + UNSUB_HOW)})
   unsubs = st.fixed_dictionaries({"op": st.just("unsubs"), "items": st.lists(
       st.fixed_dictionaries({"k": st.integers(0, 11), "how": st.sampled_from(["pair", "pair", "eid", "handler"])}), min_size=2, max_size=5)})
-  rais = st.fixed_dictionaries({"op": st.just("raise"), "s": st.integers(0, 2), "t": st.sampled_from([0, 0, 0, 0, 0, 0, 1, 1, 1, 2, 3, 4, 5, 6, 8, 9]),
+  rais = st.fixed_dictionaries({"op": st.just("raise"), "s": src, "t": st.sampled_from([0] * 12 + [1, 1, 1, 2, 3, 4, 5, 6, 8, 9]),
                                 "form": st.sampled_from(["inst", "cls"]), "noerr": st.booleans()})
   drop = st.fixed_dictionaries({"op": st.just("drop"), "h": st.integers(0, 5)})
   bind = st.fixed_dictionaries({"op": st.just("bind"), "s": st.sampled_from([0, 1, 2, 2]), "h": st.integers(0, 5),
                                 "pfx": st.sampled_from(BIND_PREFIXES), "weak": st.booleans(), "p": prio,
                                 "api": st.sampled_from(BIND_APIS)})
+  clear = st.fixed_dictionaries({"op": st.just("clear"), "s": src})
+  # (st.one_of drops repeated branches, so the weights are drawn explicitly)
   if nested:
-    return st.one_of(sub, sub, unsub, rais, sub, unsub, drop, unsubs)
-  return st.one_of(sub, sub, sub, rais, rais, unsub, sub, rais, drop, bind, unsubs)
+    table = [(3, sub), (2, unsub), (1, rais), (1, drop), (1, unsubs), (1, clear)]
+  else:
+    table = [(7, sub), (6, rais), (3, unsub), (1, drop), (2, bind), (1, unsubs), (1, clear)]
+  idx = [i for i, (w, _) in enumerate(table) for _ in range(w)]
+  return st.sampled_from(idx).flatmap(lambda i: table[i][1])
 
 
 def _strategy(tier):
@@ -873,7 +1067,7 @@ def _strategy(tier):
   owner = st.fixed_dictionaries({
     "ret": st.sampled_from(["none", "none", "none"] + RET_KINDS),
     "halt": st.sampled_from([False] * 7 + [True]),
-    "exc": st.sampled_from([False] * 10 + [True, True, "base"]),
+    "exc": st.sampled_from([False] * 24 + [True, True, "base", "noargs", "keyerr", "percent"] + list(UNPRINTABLE)),
     "eq": st.sampled_from([0, 0, 0, 1, 1, 2]),
     "leak": st.sampled_from([False, False, True]),
     "weakonly": st.sampled_from([False, False, False, True]),
@@ -883,7 +1077,7 @@ def _strategy(tier):
   return st.fixed_dictionaries({
     "nsrc": st.sampled_from([1, 1, 1, 2, 3]),
     "owners": st.lists(owner, min_size=2, max_size=5),
-    "ops": st.lists(_s_op(False), min_size=2, max_size=maxops),
+    "ops": st.lists(_s_op(False), min_size=3, max_size=maxops),
   })
 
 
@@ -896,6 +1090,9 @@ def plan(tier):
       Enum("seq-eq", lambda: _enum("eq", 4), shards=4),
       Enum("seq-bind", lambda: _enum("bind", 3), shards=4),
       Enum("seq-weakexc", lambda: _enum("weakexc", 4), shards=4),
+      Enum("seq-clear", lambda: _enum("clear", 4), shards=8),
+      Enum("seq-clearweak", lambda: _enum("clearweak", 5), shards=8),
+      Enum("seq-exc", lambda: _enum("exc", 4), shards=4),
       Hyp("histories", lambda: _strategy(tier), examples=3000, shards=16),
     ]
   return [
@@ -905,5 +1102,8 @@ def plan(tier):
     Enum("seq-eq", lambda: _enum("eq", 5), shards=16),
     Enum("seq-bind", lambda: _enum("bind", 4), shards=16),
     Enum("seq-weakexc", lambda: _enum("weakexc", 5), shards=16),
-    Hyp("histories", lambda: _strategy(tier), examples=600000, shards=16),
+    Enum("seq-clear", lambda: _enum("clear", 5), shards=16),
+    Enum("seq-clearweak", lambda: _enum("clearweak", 6), shards=16),
+    Enum("seq-exc", lambda: _enum("exc", 5), shards=16),
+    Hyp("histories", lambda: _strategy(tier), examples=300000, shards=16),
   ]
